@@ -86,4 +86,16 @@ CLAIMED = {
             "batch histories on live documents are validated by TLC against the set model (cardinality + every answer).",
             "roaring/flate2 trusted as codecs; indices >= 2^31 only in the replay direction.",
             "DESIGN.md §3 C06"),
+    "C09": ("TLA+ step-machine spec StorageTxn (one action per storage call, fault set chosen in Init) model-checked by TLC over "
+            "every fault subset; every behaviour replayed on the real generate_method/purge_method with fault-injecting stores, "
+            "including equality of the recorded storage-call sequence",
+            "model_checking",
+            "TLC explores every (operation, pre-state, fault subset) behaviour of the code-shaped step machine and checks "
+            "all-or-nothing, no-silent-orphan and relationship-references-kept when the call returns; it also demonstrates on "
+            "every run that the unrepaired rollback design violates them. Each behaviour is replayed on CoreDocument and "
+            "IotaDocument through fault-injecting JwkStorage/KeyIdStorage wrappers that fail exactly the named calls and log every "
+            "call; result class, the exact call sequence, the abstract post-state, exact document restoration on error, store "
+            "cardinalities, sign+verify after success and an untouched bystander method are compared.",
+            "Fault model: a failing call has no effect. In-memory stores, Ed25519 only. 2 (quick) / 3 (thorough) relationships.",
+            "DESIGN.md §3 C09"),
 }
